@@ -32,12 +32,16 @@ Definition cell_outs (s : node) (src cid : Z) (cr : crypt) (o : list out) : Prop
 Lemma cell_outs_nil s src cid cr : cell_outs s src cid cr [].
 Proof. intros d c e mm []. Qed.
 
-Lemma recv_cell_frame s src cid plain early len cr ls :
-  closedI s -> cell_ok s cid cr ->
+(* the same with what the handler needs known locally (see handle_local) *)
+Definition cell_ok_l (s : node) (cid : Z) (cr : crypt) : Prop :=
+  aget cid (relays s) = None -> forall m, cr = COk m -> handshake_free I cid m /\ handle_local I s cid m.
+
+Lemma recv_cell_frame_l s src cid plain early len cr ls :
+  cell_ok_l s cid cr ->
   frame (cell_touch s cid) s (fst (recv_cell st s src cid plain early len cr ls))
   /\ cell_outs s src cid cr (snd (recv_cell st s src cid plain early len cr ls)).
 Proof.
-  intros K Hok. split.
+  intros Hok. split.
   - unfold recv_cell. destruct (aget cid (relays s)) as [nxt|] eqn:En.
     + set (s1 := match aget (r_next nxt) (relays s) with
                  | Some this => set_relays (aset (r_next nxt) (r_with_ro (fun r => ro_down len (ro_beat (now s) r)) this) (relays s)) s
@@ -74,7 +78,7 @@ Proof.
       assert (Tc : I cid = true -> cell_touch s cid cid) by (intros _; left; reflexivity).
       destruct m as [ident|ident v p|ident|ident v p|a b c dl| | |mid];
         try (match goal with |- context [handle st s src cid ?M ls] =>
-               destruct (handle_frame st I (cell_touch s cid) s src cid M ls K (Hok En _ eq_refl) Tc) as [F _];
+               destruct (handle_frame_l st I (cell_touch s cid) s src cid M ls (proj2 (Hok En _ eq_refl)) (proj1 (Hok En _ eq_refl)) Tc) as [F _];
                destruct (handle st s src cid M ls) as [[s' o'] l']; apply G; exact F end).
       destruct (handle_data_frame st I (cell_touch s cid) s src cid a b c dl Tc) as [F _].
       destruct (handle_data s src cid a b c dl) as [s1 o]. apply G. exact F.
@@ -102,11 +106,20 @@ Proof.
         right. subst. repeat split; auto. }
       destruct m as [ident|ident v p|ident|ident v p|a b c dl| | |mid];
         try (match goal with |- context [handle st s src cid ?M ls] =>
-               destruct (handle_frame st I (cell_touch s cid) s src cid M ls K (Hok En _ eq_refl) Tc) as [_ O];
+               destruct (handle_frame_l st I (cell_touch s cid) s src cid M ls (proj2 (Hok En _ eq_refl)) (proj1 (Hok En _ eq_refl)) Tc) as [_ O];
                destruct (handle st s src cid M ls) as [[s' o'] l']; apply G; apply P; exact O end).
       destruct (handle_data_frame st I (cell_touch s cid) s src cid a b c dl Tc) as [_ N].
       destruct (handle_data s src cid a b c dl) as [s1 o]. apply G.
       intros d c0 e mm Hin _. exfalso. eapply N; eauto.
+Qed.
+
+Lemma recv_cell_frame s src cid plain early len cr ls :
+  closedI s -> cell_ok s cid cr ->
+  frame (cell_touch s cid) s (fst (recv_cell st s src cid plain early len cr ls))
+  /\ cell_outs s src cid cr (snd (recv_cell st s src cid plain early len cr ls)).
+Proof.
+  intros K Hok. apply recv_cell_frame_l. intros En m Hm. split; [exact (Hok En m Hm)|].
+  apply closed_handle_local. exact K.
 Qed.
 
 (* ---------------------------------------------------------------- timers, destroys, removal tasks *)
@@ -162,7 +175,7 @@ Proof.
   - inversion H; subst. exists c. split; [exact Ec|]. split; [|auto].
     destruct (c_closing c); [discriminate | reflexivity].
   - destruct (O2 _ _ _ _ H Hi) as (circ & Hc & K & Hd & Hm).
-    destruct (f_circ _ _ _ _ _ F1 _ _ Hi Hc) as (circ0 & Hc0 & A & _ & _ & _ & K1 & _).
+    destruct (f_circ _ _ _ _ _ F1 _ _ Hi Hc) as (circ0 & Hc0 & A & _ & _ & _ & _ & _ & K1 & _).
     exists circ0. split; [exact Hc0|]. split; [|split; [congruence | exact Hm]].
     destruct (c_closing circ0) eqn:E0; [|reflexivity]. rewrite (K1 eq_refl) in K. discriminate.
 Qed.
@@ -187,7 +200,7 @@ Lemma wake_frame (touch : Z -> Prop) s i due k cid :
 Proof.
   intro Hn. set (s0 := set_sleeping (remove_nth i (sleeping s)) s).
   destruct (finish_remove_frame touch s0 k cid) as [F _].
-  destruct F as [n c r o e kk t d l]. constructor; auto.
+  destruct F as [n c r o e cd kk t d l]. constructor; auto.
   intros due' x Hi Hc Hin. apply l; auto. simpl.
   eapply in_remove_nth_other; [exact Hin | exact Hn|].
   intro E. inversion E; subst due' k cid. apply Hc. simpl. rewrite aget_adel, Z.eqb_refl. reflexivity.
@@ -249,11 +262,12 @@ Lemma snd_let3' {A B C : Type} (x : A * B * C) : snd (let '(a, b, _) := x in (a,
 Proof. destruct x as [[a b] c]. reflexivity. Qed.
 
 Lemma run_deferred_frame (touch : Z -> Prop) s d eo tg tc nb p ls :
-  closedI s -> harmless d -> I tc = false -> (forall x, d = DOpen x -> I x = true -> touch x) ->
+  harmless d -> (forall src cid ident, d = DExtend src cid ident -> I tc = false) ->
+  (forall x, d = DOpen x -> I x = true -> touch x) ->
   frame touch s (fst (run_deferred st s d eo tg tc nb p ls))
   /\ no_I_cells (snd (run_deferred st s d eo tg tc nb p ls)).
 Proof.
-  intros K Hd Htc Ht.
+  intros Hd Htc Ht.
   assert (R0 : frame touch s s /\ no_I_cells []) by (split; [apply frame_refl | apply no_I_nil]).
   destruct d as [k c dd rn|src cid ident|src cid ident|cid t ini|cid]; simpl in Hd.
   - simpl. destruct (start_remove_frame touch s k c dd rn) as [F N]. split; [exact F | apply no_cells_no_I; exact N].
@@ -265,14 +279,16 @@ Proof.
     rewrite fst_let3', snd_let3'. split; [|apply send_cell_no_I; exact Hd].
     eapply frame_trans; [|apply send_cell_frame].
     set (s1 := set_createds (aset cid (now s + s_unstable_timeout st) (createds s)) s).
-    apply frame_trans with (b := s1); [apply frame_set_createds|].
+    apply frame_trans with (b := s1).
+    { apply frame_set_createds. intros x due Hi H. rewrite aget_aset in H. destruct (x =? cid) eqn:E; [|exact H].
+      apply Z.eqb_eq in E. subst x. congruence. }
     apply (frame_set_exit st I touch s1 cid). intro H; congruence.
   - (* on_extend *)
     simpl. destruct (negb (s_relay_flag st)); [exact R0|].
     destruct (negb (ahas cid (createds s))); [exact R0|].
     destruct (negb eo); [exact R0|].
     match goal with |- context [match ?x with Some _ => _ | None => _ end] => destruct x as [prev|] end; [|exact R0].
-    rewrite fst_let3', snd_let3'. split; [|apply send_cell_no_I; exact Htc].
+    rewrite fst_let3', snd_let3'. pose proof (Htc _ _ _ eq_refl) as Htc'. split; [|apply send_cell_no_I; exact Htc'].
     eapply frame_trans; [|apply send_cell_frame]. apply frame_add_create; simpl; assumption.
   - (* retry *)
     simpl. destruct (aget cid (circuits s)) as [c|]; [|exact R0].
@@ -282,8 +298,8 @@ Proof.
     destruct (e_enabled e && negb (e_open e)); [|exact R0].
     pose proof (drain_facts I cid (e_queue e) (mkExit (e_ro e) (e_peer e) true true []) (now s)) as H.
     destruct (drain cid (mkExit (e_ro e) (e_peer e) true true []) (e_queue e) (now s)) as [e2 o]. simpl in H.
-    destruct H as [L N]. simpl. split.
-    + apply frame_set_exit. intro Hi. exists e. split; [exact Ee|].
+    destruct H as [Pe [L N]]. simpl. split.
+    + apply frame_set_exit. intro Hi. exists e. split; [exact Ee|]. split; [exact Pe|].
       destruct L as [L|L]; [left; exact L | right; split; [apply Ht; auto | exact L]].
     + intros d c e0 m [H|H]; [discriminate | exfalso; eapply N; eauto].
 Qed.
@@ -313,14 +329,27 @@ Definition ev_outs (s : node) (e : ev) (o : list out) : Prop :=
   | _ => no_I_cells o
   end.
 
-Lemma step_at_frame s e :
-  closedI s -> ev_ok s e ->
+(* the local form: what each event needs to know about the node *)
+Definition ev_ok_l (s : node) (e : ev) : Prop :=
+  match e with
+  | ERecvCell _ cid _ _ _ cr _ => cell_ok_l s cid cr
+  | ESendData _ cid _ => I cid = false
+  | EOutside cid _ _ _ => I cid = false
+  | ECreateCircuit cid _ _ _ => I cid = false
+  | ERun i _ _ tc _ _ _ => forall d, nth_error (starts s) i = Some d ->
+      harmless d /\ (forall src cid ident, d = DExtend src cid ident -> I tc = false)
+  | ERetryTimeout cid => forall rt, aget cid (retries s) = Some rt -> I cid = false
+  | _ => True
+  end.
+
+Lemma step_at_frame_l s e :
+  ev_ok_l s e ->
   frame (ev_touch s e) s (fst (step_at st s e)) /\ ev_outs s e (snd (step_at st s e)).
 Proof.
-  intros K Hok.
+  intros Hok.
   destruct e as [src cid plain early len cr ls|src cid reason| |ls|i eo tg tc nb p ls|i|cid|cid|number
                  |cid goal p ls|k cid dd rn|dst cid ls|cid len allowed ls]; simpl in Hok; cbn [step_at ev_touch ev_outs].
-  - apply recv_cell_frame; assumption.
+  - apply recv_cell_frame_l; assumption.
   - split; [apply recv_destroy_frame | apply no_I_nil].
   - split; [apply sweep_frame | apply no_I_nil].
   - apply ping_all_frame.
@@ -328,9 +357,8 @@ Proof.
     set (s0 := set_starts (remove_nth i (starts s)) s).
     assert (F0 : frame (fun x => Some d = Some (DOpen x)) s s0).
     { apply frame_sub_starts. intros d0 H. eapply in_remove_nth; eauto. }
-    assert (K0 : closedI s0) by (eapply closed_frame; eauto).
-    assert (Hd : harmless d) by (apply (k_starts _ _ K); eapply nth_error_In; eauto).
-    destruct (run_deferred_frame (fun x => Some d = Some (DOpen x)) s0 d eo tg tc nb p ls K0 Hd Hok) as [F O].
+    destruct (Hok _ eq_refl) as [Hd Hok'].
+    destruct (run_deferred_frame (fun x => Some d = Some (DOpen x)) s0 d eo tg tc nb p ls Hd Hok') as [F O].
     { intros x E _. rewrite E. reflexivity. }
     split; [eapply frame_trans; eauto | exact O].
   - destruct (nth_error (sleeping s) i) as [[[due k] cid]|] eqn:En; [|split; [apply frame_refl | apply no_I_nil]].
@@ -338,14 +366,15 @@ Proof.
     apply no_cells_no_I. apply (finish_remove_frame (fun _ => False)).
   - (* retry time-out *)
     destruct (aget cid (retries s)) as [rt|] eqn:Er; [|split; [apply frame_refl | apply no_I_nil]].
-    pose proof (k_retries _ _ K _ _ Er) as Hc.
+    pose proof (Hok _ eq_refl) as Hc.
     set (s1 := set_retries (adel cid (retries s)) s).
     assert (F1 : frame (fun _ : Z => False) s s1) by apply frame_del_retry.
     destruct (aget cid (circuits s1)) as [c|]; [|split; [exact F1 | apply no_I_nil]].
     destruct (c_closing c); [split; [exact F1 | apply no_I_nil]|].
     destruct (retry_gives_up (rt_cands rt) (rt_tries rt)); (split; [|apply no_I_nil]);
       (eapply frame_trans; [exact F1|]); apply frame_defer; simpl; auto; intros x H; discriminate.
-  - split; [apply frame_set_createds | apply no_I_nil].
+  - split; [|apply no_I_nil]. apply frame_set_createds. intros x due Hi H. rewrite aget_adel in H.
+    destruct (x =? cid); [discriminate | exact H].
   - split; [apply frame_del_create | apply no_I_nil].
   - (* create_circuit *)
     destruct (p_next p) as [nx|] eqn:Ep; [|split; [apply frame_refl | apply no_I_nil]].
@@ -364,5 +393,18 @@ Proof.
     rewrite fst_let3', snd_let3'. split; [|apply send_cell_no_I; exact Hok].
     eapply frame_trans; [exact F1 | apply send_cell_frame].
 Qed.
+
+Lemma closed_ev_ok_l s e : closedI s -> ev_ok s e -> ev_ok_l s e.
+Proof.
+  intros K Hok. destruct e; simpl in *; auto.
+  - intros En m Hm. split; [exact (Hok En m Hm) | apply closed_handle_local; exact K].
+  - intros d H. split; [apply (k_starts _ _ K); eapply nth_error_In; eauto | intros; exact Hok].
+  - intros rt H. exact (k_retries _ _ K _ _ H).
+Qed.
+
+Lemma step_at_frame s e :
+  closedI s -> ev_ok s e ->
+  frame (ev_touch s e) s (fst (step_at st s e)) /\ ev_outs s e (snd (step_at st s e)).
+Proof. intros K Hok. apply step_at_frame_l. apply closed_ev_ok_l; assumption. Qed.
 
 End StepFrames.
